@@ -994,14 +994,18 @@ def renorm_rule(rep, mod, anchors):
     IP = anchors['IP']
     FLIP = {'lt': 'gt', 'gt': 'lt', 'le': 'ge', 'ge': 'le'}
     n = 0
+    FLIP.update({'eq': 'eq', 'ne': 'ne'})
     for i in f.all_insts():
-        if i.op != 'fcmp' or i.pred[1:] not in ('lt', 'le', 'gt', 'ge'):
+        if i.op != 'fcmp' or i.pred[1:] not in ('lt', 'le', 'gt', 'ge', 'eq', 'ne'):
             continue
         cells = [cell_of_load(f, o) for o in i.ops]
         side = [k for k in (0, 1) if cells[k] is not None and cells[k].id == IP.id]
         if len(side) != 1 or not from_arg(f, i.ops[1 - side[0]], ROLE_BASE):
             continue
         pred = i.pred[1:] if side[0] == 0 else FLIP[i.pred[1:]]
+        if pred in ('eq', 'ne'):
+            # `ip == base` (after a carry the integer part is at most the base): also a test that holds at ip == base
+            pred = 'ge' if pred == 'eq' else 'lt'
         # only the tests followed by a division of the integer part by the base (a store to the cell of a value computed from
         # an fdiv by the base on the edge where the test asks for it) are renormalisation tests
         n += 1
